@@ -303,67 +303,77 @@ def importState (d : Data) : Except IOErr StateDef :=
     | _ => .error .other                                      -- KeyError / not a string
   | _ => .error .other
 
+/-- sub-states: `state_data['states']` / `['parallel states']` (not inside a `try`) -/
+def importSubs (d : Data) (st : StateDef) : Except IOErr (List Data) :=
+  if st.kind == .compound then
+    match d.get? "states" with
+    | some (.list l) => .ok l
+    | _ => .error .other
+  else if st.kind == .orthogonal then
+    match d.get? "parallel states" with
+    | some (.list l) => .ok l
+    | _ => .error .other
+  else .ok []
+
+/-- `state_data.get('transitions', [])` -/
+def importTds (d : Data) : Except IOErr (List Data) :=
+  match d.get? "transitions" with
+  | none => .ok []
+  | some (.list l) => .ok l
+  | some _ => .error .other
+
 /-- the work list of `import_from_dict` (`data_to_consider.pop()` takes the *last* element) -/
 def importLoop : Nat → List (Data × Option Name) → List (StateDef × Option Name) → List Trans →
     Except IOErr (List (StateDef × Option Name) × List Trans)
   | 0, _, _, _ => .error .other
-  | _, [], sts, ts => .ok (sts, ts)
   | f+1, todo, sts, ts =>
     match todo.getLast? with
     | none => .ok (sts, ts)
     | some (d, par) =>
-      let todo := todo.dropLast
       match importState d with
-      | .error .statechart => .error .statechart
-      | .error .other => .error .statechart              -- `except Exception → StatechartError`
+      | .error _ => .error .statechart                -- raised as such, or `except Exception → StatechartError`
       | .ok st =>
-        -- sub-states: `state_data['states']` / `['parallel states']` (not inside a `try`)
-        let subs : Except IOErr (List Data) :=
-          if st.kind == .compound then
-            match d.get? "states" with
-            | some (.list l) => .ok l
-            | _ => .error .other
-          else if st.kind == .orthogonal then
-            match d.get? "parallel states" with
-            | some (.list l) => .ok l
-            | _ => .error .other
-          else .ok []
-        match subs with
+        match importSubs d st with
         | .error e => .error e
         | .ok subs =>
-          let todo := todo ++ subs.map (fun s => (s, some st.name))
-          -- transitions: `state_data.get('transitions', [])`
-          let tds : Except IOErr (List Data) :=
-            match d.get? "transitions" with
-            | none => .ok []
-            | some (.list l) => .ok l
-            | some _ => .error .other
-          match tds with
+          match importTds d with
           | .error e => .error e
           | .ok tds =>
             match tds.mapM (importTransition st.name) with
             | .error _ => .error .statechart
-            | .ok new => importLoop f todo (sts ++ [(st, par)]) (ts ++ new)
+            | .ok new =>
+              importLoop f (todo.dropLast ++ subs.map (fun s => (s, some st.name))) (sts ++ [(st, par)]) (ts ++ new)
 
+mutual
 /-- number of nodes of a document (fuel for the work-list loop: one state per iteration) -/
-def Data.size : Nat → Data → Nat
-  | 0, _ => 1
-  | f+1, .list l => 1 + (l.map (Data.size f)).foldl (· + ·) 0
-  | f+1, .map m => 1 + (m.map (fun p => Data.size f p.2)).foldl (· + ·) 0
-  | _, _ => 1
+def Data.nodes : Data → Nat
+  | .list l => 1 + nodesList l
+  | .map m => 1 + nodesMap m
+  | _ => 1
+def nodesList : List Data → Nat
+  | [] => 0
+  | x :: xs => x.nodes + nodesList xs
+def nodesMap : List (String × Data) → Nat
+  | [] => 0
+  | (_, v) :: r => v.nodes + nodesMap r
+end
+
+def addStateStep (c : Chart) (p : StateDef × Option Name) : Except IOErr Chart :=
+  match c.addState p.1 p.2 with
+  | (.ok _, c') => .ok c'
+  | (.error _, _) => .error .statechart
+
+def addTransStep (c : Chart) (t : Trans) : Except IOErr Chart :=
+  match c.addTransition { t with id := c.transitions.length } with
+  | (.ok _, c') => .ok c'
+  | (.error _, _) => .error .statechart
 
 /-- registering the collected states and transitions in an empty chart, then `validate()` -/
 def buildChart (c0 : Chart) (sts : List (StateDef × Option Name)) (ts : List Trans) : Except IOErr Chart :=
-  match sts.foldl (fun (acc : Except IOErr Chart) p =>
-      acc.bind (fun c => match c.addState p.1 p.2 with
-        | (.ok _, c') => .ok c'
-        | (.error _, _) => .error .statechart)) (.ok c0) with
+  match sts.foldl (fun (acc : Except IOErr Chart) p => acc.bind (fun c => addStateStep c p)) (.ok c0) with
   | .error e => .error e
   | .ok c1 =>
-    match ts.foldl (fun (acc : Except IOErr Chart) t =>
-        acc.bind (fun c => match c.addTransition { t with id := c.transitions.length } with
-          | (.ok _, c') => .ok c'
-          | (.error _, _) => .error .statechart)) (.ok c1) with
+    match ts.foldl (fun (acc : Except IOErr Chart) t => acc.bind (fun c => addTransStep c t)) (.ok c1) with
     | .error e => .error e
     | .ok c2 => if c2.validate then .ok c2 else .error .statechart
 
@@ -388,7 +398,7 @@ def importDict (fuel : Nat) (d : Data) : Except IOErr Chart :=
 def importYamlData (fuel : Nat) (d : Data) : Except IOErr Chart :=
   match schemaValidate fuel d with
   | none => .error .statechart
-  | some d' => importDict (Data.size (3 * fuel + 8) d' + 2) d'
+  | some d' => importDict (d'.nodes + 2) d'
 
 /-! ## `export_to_dict` -/
 
